@@ -213,4 +213,5 @@ def build(ck):
     def block_rule_hook(interp, fi, args, kwargs):
         return None
     ck.explore(f'{BL}.AbstractBlockDiagonalRule.apply', lambda S: block_rule(S, True), T, label='same-layout',
-               axioms=axioms + A.block_struct_axioms(), contracts=A.block_structure_contracts())
+               axioms=axioms + A.block_struct_axioms(),
+               contracts={**A.block_structure_contracts(), **A.container_callee_contracts(P)})
